@@ -97,8 +97,8 @@ def make_md(payload, dsse):
     return Envelope.from_signable(payload) if dsse else Metablock(signed=payload)
 
 
-def edit_leaf(rng, obj, path=()):
-    """change one leaf (string / int / bool) of a JSON-like object in place; returns description or None"""
+def leaf_paths(obj):
+    """paths of all leaves (string / int / bool / null, at any depth) of a JSON-like object, in document order"""
     leaves = []
 
     def walk(o, p):
@@ -111,27 +111,54 @@ def edit_leaf(rng, obj, path=()):
         else:
             leaves.append(p)
     walk(obj, ())
-    if not leaves:
-        return None
-    p = rng.choice(leaves)
+    return leaves
+
+
+def edited_value(v):
+    """another value of the same kind: hex stays hex, dates stay dates, other strings get a suffix"""
+    if isinstance(v, bool):
+        return not v
+    if isinstance(v, int):
+        return v + 1
+    if isinstance(v, str):
+        if v and all(c in "0123456789abcdef" for c in v):
+            return ("1" if v[0] != "1" else "2") + v[1:]
+        if len(v) == 20 and v.endswith("Z") and v[4] == "-":
+            return "2031" + v[4:]
+        return v + "x"
+    if v is None:
+        return "x"
+    return v
+
+
+def edit_at(obj, p):
+    """edit the leaf at path p in place; returns (old, new)"""
     o = obj
     for k in p[:-1]:
         o = o[k]
-    v = o[p[-1]]
-    if isinstance(v, bool):
-        o[p[-1]] = not v
-    elif isinstance(v, int):
-        o[p[-1]] = v + 1
-    elif isinstance(v, str):
-        if v and all(c in "0123456789abcdef" for c in v):
-            o[p[-1]] = ("1" if v[0] != "1" else "2") + v[1:]
-        elif len(v) == 20 and v.endswith("Z") and v[4] == "-":
-            o[p[-1]] = "2031" + v[4:]
-        else:
-            o[p[-1]] = v + "x"
-    elif v is None:
-        o[p[-1]] = "x"
+    old = o[p[-1]]
+    o[p[-1]] = edited_value(old)
+    return old, o[p[-1]]
+
+
+def edit_leaf(rng, obj, path=()):
+    """change one leaf (string / int / bool) of a JSON-like object in place; returns description or None"""
+    leaves = leaf_paths(obj)
+    if not leaves:
+        return None
+    p = rng.choice(leaves)
+    edit_at(obj, p)
     return list(p)
+
+
+def content_preserved(fj0, fj1):
+    """traditional format: do both files load to the same object (payload and signatures)?"""
+    from in_toto.models.metadata import Metadata
+    try:
+        a, b = Metadata.from_dict(copy.deepcopy(fj0)), Metadata.from_dict(copy.deepcopy(fj1))
+        return _snapshot(a) == _snapshot(b)
+    except Exception:  # noqa
+        return False
 
 
 def tamper_file(rng, fj, how):
@@ -236,6 +263,8 @@ class Builder:
         self.cur_depth = 0
         self.specs = []          # per generated file: payload object, signers, tampering (re-rendering, C14)
         self.last_layout_spec = None
+        self.layouts = {}      # layout path ("" = root) -> what the builder knows about that layout (C07 oracle)
+        self.ph_used = {}      # placeholder name -> value that makes the chain verify (C16)
 
     def fresh(self, p):
         self.uid += 1
@@ -261,14 +290,18 @@ class Builder:
         m = self.o.get("format", "mixed")
         return {"mb": False, "dsse": True}.get(m, self.rng.random() < 0.4)
 
-    def build_layout(self, depth, mats, prods, owners, variant="honest", logpath=None, dsse=None):
+    def build_layout(self, depth, mats, prods, owners, variant="honest", logpath=None, dsse=None, lpath=""):
         """a layout (signed by owners) whose chain turns [mats] into [prods]; returns (file json, tree)"""
         from in_toto.models.layout import Inspection, Layout, Step
         rng = self.rng
+        info = {"variant": variant, "insp": [], "behave": {}, "rule_violation": False, "depth": depth}
+        self.layouts[lpath] = info
+        ph = self.o.get("ph")
         self.cur_depth = depth
         nsteps = rng.choice(self.o.get("nsteps") or [1, 1, 2, 2, 3]) if depth == 0 else rng.choice([1, 1, 2])
         if self.o.get("allow_empty") and rng.random() < 0.04:
             nsteps = 0
+        nsteps = min(nsteps, self.o.get("max_steps", 99))
         names = [self.fresh("s") for _ in range(nsteps)]
         # artifact flow
         flows = [mats]
@@ -278,8 +311,9 @@ class Builder:
         tree = {"files": {}, "dirs": {}}
         layout_keys = {}
         steps = []
+        late = []
         for i, name in enumerate(names):
-            nf = rng.choice([1, 1, 1, 2, 2, 3])
+            nf = min(rng.choice([1, 1, 1, 2, 2, 3]), self.o.get("max_funcs", 99))
             fkeys = self.pick_keys(nf)
             thr = rng.randrange(1, len(fkeys) + 1)
             if self.o.get("threshold_heavy") and len(fkeys) > 1:
@@ -299,17 +333,23 @@ class Builder:
             if self.o.get("rule_violation") and rng.random() < 0.25:
                 ep = [["DISALLOW", "*"]] if P else [["REQUIRE", "nothing-here"]]
                 self.tags.append("rule_violation")
+                info["rule_violation"] = True
             if self.o.get("params") and rng.random() < 0.5:
                 em = em + [["ALLOW", "{P1}"]]
+            cmd = ["build", "{P2}"] if self.o.get("params") else ["build"]
+            self.late_ep = None
+            if ph:
+                em, ep, cmd = self.ph_step(i, names, em, ep, cmd, M, P)
             steps.append(Step(name=name, pubkeys=[k.keyid for k in fkeys], threshold=thr,
-                              expected_materials=em, expected_products=ep,
-                              expected_command=["build", "{P2}"] if self.o.get("params") else ["build"]))
+                              expected_materials=em, expected_products=ep, expected_command=cmd))
+            if self.late_ep:
+                late.append((len(steps) - 1, self.late_ep))
             others = [x for x in names if x != name]
             for ki, k in enumerate(fkeys):
                 if plan is None:
-                    self.add_evidence(tree, depth, name, k, M, P, fkeys, others)
+                    self.add_evidence(tree, depth, name, k, M, P, fkeys, others, lpath=lpath)
                 else:
-                    self.add_evidence(tree, depth, name, k, M, P, fkeys, others, directive=plan[ki])
+                    self.add_evidence(tree, depth, name, k, M, P, fkeys, others, directive=plan[ki], lpath=lpath)
                 self.cur_depth = depth
             # an unauthorised functionary's link lying around
             if rng.random() < 0.15:
@@ -319,7 +359,7 @@ class Builder:
                     self.tags.append("stranger_link")
         inspections = []
         if logpath is not None:
-            for j in range(rng.choice([0, 0, 1, 1, 2, 3])):
+            for j in range(rng.choice(self.o.get("insp_counts") or [0, 0, 1, 1, 2, 3])):
                 iname = self.fresh("i")
                 behave = rng.choice(["ok"] * 5 + ["fail", "timeout"]) if self.o.get("insp_fail") else "ok"
                 cmd = {"ok": "echo %s >> %s" % (iname, logpath),
@@ -327,24 +367,39 @@ class Builder:
                        "timeout": "echo %s >> %s; TIMEOUT" % (iname, logpath)}[behave]
                 if behave != "ok":
                     self.tags.append("insp_" + behave)
+                info["insp"].append(iname)
+                info["behave"][iname] = behave
                 ie = rng.choice([[], [["ALLOW", "*"]], [["ALLOW", "*"], ["DISALLOW", "*"]]])
                 if self.o.get("rule_violation") and rng.random() < 0.15:
                     ie = [["DISALLOW", "*"]]
                     self.tags.append("insp_rule_violation")
-                inspections.append(Inspection(name=iname, run=["sh", "-c", cmd] + (["{P1}"] if self.o.get("params") and rng.random() < 0.3 else []),
-                                              expected_materials=ie, expected_products=[]))
+                run = ["sh", "-c", cmd] + (["{P1}"] if self.o.get("params") and rng.random() < 0.3 else [])
+                iprod = []
+                if ph:
+                    run, ie, iprod = self.ph_insp(iname, cmd, logpath, ie, names)   # (only with well-behaved commands)
+                inspections.append(Inspection(name=iname, run=run, expected_materials=ie, expected_products=iprod))
         expires = EXPIRES
         if variant == "expired":
             expires = rng.choice(["2020-01-01T00:00:00Z", "2026-09-26T12:00:00Z", "2026-09-26T11:59:59Z"])
             self.tags.append("layout_expired")
-        elif self.o.get("boundary") and rng.random() < 0.5:
+        elif self.o.get("boundary") and rng.random() < self.o.get("boundary_p", 0.5):
             expires = rng.choice(["2026-09-26T12:00:01Z", "2026-09-26T12:00:00Z", "2026-09-26T11:59:59Z",
                                   "2024-02-29T00:00:00Z", "2028-02-29T23:59:59Z", "9999-12-31T23:59:59Z", "0001-01-01T00:00:00Z"])
             self.tags.append("boundary:" + expires)
+        elif self.o.get("near_expiry") and rng.random() < 0.7:
+            # expiry within a day of now, either side: a clock read in another zone shows here
+            off = rng.choice([1, 59, 60, 1799, 3599, 3600, 3601, 7200, 21600, 43200, 86399, 86400]) * rng.choice([1, 1, -1])
+            expires = (datetime.datetime(1970, 1, 1) + datetime.timedelta(seconds=NOW_US // 1000000 + off)).strftime("%Y-%m-%dT%H:%M:%SZ")
+            self.tags.append("boundary:near%+d" % off)
+        info["expires"] = expires
         layout = Layout(steps=steps, inspect=inspections, keys=layout_keys, expires=expires,
                         readme=rng.choice(["", "read me", "é\"\\\n"]))
         is_dsse = self.dsse() if dsse is None else dsse
-        md = make_md(layout, is_dsse)
+        md = None if is_dsse else make_md(layout, False)
+        for idx, rules in late:
+            # rules the constructors refuse: assigned afterwards, so that they get signed and the loader sees them
+            layout.steps[idx].expected_products = rules
+        md = md or make_md(layout, True)
         signers = list(owners)
         if variant == "unsigned":
             signers = []
@@ -356,13 +411,108 @@ class Builder:
             self.env.sign(md, k)
         fj = to_file(md)
         if variant in ("edited", "sig_nibble"):
+            fj0 = fj
             fj = tamper_file(rng, fj, variant)
             self.tags.append("layout_" + variant)
+            if variant == "edited" and "signed" in fj and content_preserved(fj0, fj):
+                # e.g. the "_type" of a step, which the loader overwrites: not an edit of the content
+                info["variant"] = "edited_preserved"
+                self.tags.append("layout_edit_preserved")
         self.last_layout_spec = self.note_spec(layout, signers, is_dsse, fj,
                                                tamper=variant if variant in ("edited", "sig_nibble") else None)
         return fj, tree
 
-    def add_evidence(self, tree, depth, step, key, M, P, fkeys, other_steps, directive=None):
+    # -- C16: placeholders at every position the verifier substitutes ----------------------------
+    def ph_name(self, kind, value):
+        """a placeholder whose 'right' value is [value]: S<n> (step names), A<n> (artifact paths), D<n> (prefixes)"""
+        for k, v in self.ph_used.items():
+            if k[0] == kind and v == value:
+                return k
+        nm = "%s%d" % (kind, len(self.ph_used))
+        self.ph_used[nm] = value
+        return nm
+
+    def ph_generic(self, nm):
+        self.ph_used.setdefault(nm, {"P1": "*", "P2": "x", "P-1": "zzz"}[nm])
+        return "{%s}" % nm
+
+    def ph_step(self, i, names, em, ep, cmd, M, P):
+        rng = self.rng
+        g = self.ph_generic
+        name = names[i]
+        if rng.random() < 0.6:
+            if i > 0:
+                prev = names[i - 1]
+                k = rng.randrange(6)
+                self.tags.append("ph:em%d" % k)
+                em = [[["MATCH", g("P1"), "WITH", "PRODUCTS", "FROM", prev], ["DISALLOW", "*"]],
+                      [["MATCH", "*", "WITH", "PRODUCTS", "FROM", "{%s}" % self.ph_name("S", prev)], ["DISALLOW", "*"]],
+                      [["MATCH", "*", "IN", "{%s}" % self.ph_name("D", ""), "WITH", "PRODUCTS", "IN", "{%s}" % self.ph_name("D", ""),
+                        "FROM", prev], ["DISALLOW", "*"]],
+                      [["MATCH", "*", "WITH", "PRODUCTS", "FROM", prev], ["DISALLOW", g("P-1")]],
+                      [["MATCH", "*", "WITH", "PRODUCTS", "FROM", prev], ["ALLOW", "{{" + "P1" + "}}"], ["DISALLOW", "*"]],
+                      [["ALLOW", g("P1")], ["DISALLOW", "*"]]][k]
+            else:
+                k = rng.randrange(4)
+                self.tags.append("ph:em0%d" % k)
+                em = [[["ALLOW", g("P1")], ["DISALLOW", "*"]],
+                      [["DISALLOW", g("P-1")]],
+                      [["CREATE", g("P2")], ["DELETE", g("P2")], ["MODIFY", g("P2")], ["ALLOW", "*"]],
+                      [["ALLOW", "a" + g("P2") + "b{{c}}"], ["ALLOW", "*"]]][k]
+        if rng.random() < 0.6 and ep != [["DISALLOW", "*"]]:
+            k = rng.randrange(8)
+            self.tags.append("ph:ep%d" % k)
+            aprod = sorted(P)[0] if P else "nothing"
+            ep = [[["ALLOW", g("P1")], ["DISALLOW", "*"]],
+                  [["CREATE", g("P2")], ["MODIFY", g("P1")], ["DELETE", g("P-1")], ["ALLOW", "*"]],
+                  [["DISALLOW", g("P-1")]],
+                  [["REQUIRE", "{%s}" % self.ph_name("A", aprod)], ["ALLOW", "*"]],
+                  [["MATCH", g("P1"), "WITH", "MATERIALS", "FROM", "{%s}" % self.ph_name("S", name)], ["ALLOW", "*"]],
+                  [["ALLOW", "{{{" + "P1" + "}}}"], ["ALLOW", g("P1")], ["DISALLOW", "*"]],
+                  [["MODIFY", "a" + g("P2") + "b{{c}}"], ["ALLOW", "*"]],
+                  [["MATCH", "*", "IN", "{%s}" % self.ph_name("D", ""), "WITH", "MATERIALS", "IN", g("P2"), "FROM", name], ["ALLOW", "*"]]][k]
+            if k == 5:
+                self.ph_generic("P1")
+        r = rng.random()
+        if r < 0.04:
+            # a placeholder where a keyword must stand: the loader rejects the layout
+            self.tags.append("ph:keyword")
+            self.late_ep = rng.choice([[[g("P1"), "*"]], [["MATCH", "*", g("P2"), "PRODUCTS", "FROM", name]],
+                             [["MATCH", "*", "WITH", g("P2"), "FROM", name]]])
+        elif r < 0.08:
+            bad = rng.choice(["{", "}", "{}", "{0}", "{P1", "P1}"])
+            self.tags.append("ph:malformed")
+            ep = [["ALLOW", bad], ["ALLOW", "*"]]
+        cmd = rng.choice([["build"], ["build", g("P2")], [g("P1"), "{{", "}}"], ["build", "x" + g("P-1") + "y"], []])
+        if cmd and cmd != ["build"]:
+            self.tags.append("ph:cmd")
+        return em, ep, cmd
+
+    def ph_insp(self, iname, cmd, logpath, ie, step_names):
+        rng = self.rng
+        g = self.ph_generic
+        first = step_names[0] if step_names else "none"
+        tmpl = rng.choice(["{P1}", "{P2}", "{P-1}", "a{P1}b{P2}", "{{P1}}", "{{{P2}}}", "}}{{", "{P2}{P2}", "plain",
+                           "{%s}" % self.ph_name("S", first)])
+        for nm in ("P1", "P2", "P-1"):
+            if "{%s}" % nm in tmpl.replace("{{P1}}", ""):
+                self.ph_generic(nm)
+        # the command logs its id and, verbatim, what was substituted into its last argument
+        head, sep, tail = cmd.partition(";")
+        script = head + "; printf '=%%s\\n' \"$1\" >> %s" % logpath + sep + tail
+        if rng.random() < 0.2:
+            script += " # " + g("P2")
+        run = ["sh", "-c", script, "x", tmpl]
+        self.tags.append("ph:run")
+        k = rng.randrange(5)
+        if k < 3:
+            self.tags.append("ph:im%d" % k)
+            ie = [[["ALLOW", g("P1")], ["DISALLOW", "*"]], [["DISALLOW", g("P-1")]],
+                  [["MATCH", "product.txt", "WITH", "PRODUCTS", "FROM", "{%s}" % self.ph_name("S", first)], ["ALLOW", "*"]]][k]
+        iprod = rng.choice([[], [], [["ALLOW", g("P2")]], [["CREATE", g("P1")], ["ALLOW", "*"]]])
+        return run, ie, iprod
+
+    def add_evidence(self, tree, depth, step, key, M, P, fkeys, other_steps, directive=None, lpath=""):
         rng = self.rng
         if directive is not None:
             return self.add_planned(tree, depth, step, key, M, P, fkeys, other_steps, directive)
@@ -378,10 +528,11 @@ class Builder:
                 if cand:
                     sub_owners = [rng.choice(cand)]
                     self.tags.append("sublayout_auth_other_signer")
-            fj, sub = self.build_layout(depth + 1, M, P, sub_owners, variant=variant, logpath=self.o.get("logpath"))
+            dirname = "%s.%s" % (step, key.keyid[:8])
+            fj, sub = self.build_layout(depth + 1, M, P, sub_owners, variant=variant, logpath=self.o.get("logpath"),
+                                        lpath=(lpath + "/" if lpath else "") + dirname)
             self.cur_depth = depth
             tree["files"]["%s.%s.link" % (step, key.keyid[:8])] = {"json": fj, "spec": self.last_layout_spec}
-            dirname = "%s.%s" % (step, key.keyid[:8])
             r = rng.random()
             if variant == "honest" and self.o.get("deviate", True) and r < 0.08:
                 tree["files"].update(sub["files"])       # sub-links placed in the parent's directory
@@ -766,19 +917,58 @@ def _make_gf(rng, gpg, shape):
 
 def build(rng, env, opts, workdir):
     """-> scenario dict (JSON-able apart from bytes in msgs)"""
-    logpath = os.path.join(workdir, "insp.log")
+    # the inspection commands run in <workdir>/cwd and name their log relative to it: the (signed) commands do not
+    # depend on where the scenario is executed, so a replay elsewhere verifies the very same bytes
+    abs_logpath = os.path.join(workdir, "insp.log")
+    logpath = "../insp.log"
     opts = dict(opts)
     opts["logpath"] = logpath
     b = Builder(env, rng, opts)
-    owners = b.pick_keys(rng.choice([1, 1, 2]))
+    owners = b.pick_keys(opts.get("owners_n") or rng.choice([1, 1, 2]))
+    root_dsse = opts.get("root_dsse")
+    gpg_mode = opts.get("gpg_owner")
+    if gpg_mode and env.gpg:
+        # "sign": a gpg master key among the owners (traditional format only: in-toto cannot make a gpg
+        # signature over a DSSE envelope); "supply": the layout is signed by sslib owners only, the gpg
+        # key is just handed to the verifier; "other": signed by the master, verified with another master
+        gk = env.gpg.master()
+        if gpg_mode == "sign" or (gpg_mode == "other" and not root_dsse):
+            root_dsse = False
+            owners = rng.choice([[gk], [gk] + owners[:1], owners[:1] + [gk]])
+        b.tags.append("gpg_" + gpg_mode)
     variant = rng.choice(LAYOUT_VARIANTS) if opts.get("deviate", True) and rng.random() < 0.35 else "honest"
     if opts.get("root_variant"):
         variant = opts["root_variant"]
     mats, prods = rand_artifacts(rng), rand_artifacts(rng, rng.randrange(1, 4))
-    root, tree = b.build_layout(0, mats, prods, owners, variant=variant, logpath=logpath, dsse=opts.get("root_dsse"))
+    root, tree = b.build_layout(0, mats, prods, owners, variant=variant, logpath=logpath, dsse=root_dsse)
     vkeys = {k.keyid: k.pub for k in owners}
+    if gpg_mode and env.gpg:
+        if gpg_mode == "supply":
+            vkeys[gk.keyid] = gk.pub
+        elif gpg_mode == "other":
+            g2 = env.gpg.master2()
+            vkeys.pop(gk.keyid, None)
+            vkeys[g2.keyid] = g2.pub
     r = rng.random()
-    if opts.get("deviate", True) and opts.get("vary_keys", True):
+    kv = opts.get("keys_variant")
+    if kv:
+        # C01: the verifier's key set forced to none / a superset / a strict subset of the signers
+        if kv == "no_keys":
+            vkeys = {}
+            b.tags.append("no_keys")
+        elif kv == "extra_key":
+            extra = b.pick_keys(1, exclude=list(vkeys))
+            if extra:
+                vkeys[extra[0].keyid] = extra[0].pub
+                b.tags.append("extra_key")
+        elif kv == "key_subset" and len(owners) > 1:
+            del vkeys[rng.choice(owners).keyid]
+            b.tags.append("key_subset")
+        elif kv == "other_key":
+            other = b.pick_keys(len(vkeys), exclude=list(vkeys))
+            vkeys = {k.keyid: k.pub for k in other}
+            b.tags.append("other_key")
+    elif opts.get("deviate", True) and opts.get("vary_keys", True):
         if r < 0.04:
             vkeys = {}
             b.tags.append("no_keys")
@@ -797,8 +987,94 @@ def build(rng, env, opts, workdir):
     now = NOW_US
     if opts.get("boundary"):
         now = NOW_US + rng.choice([0, 0, -1, 1])
-    return {"root": {"json": root, "spec": b.last_layout_spec}, "dir": tree, "keys": vkeys, "params": params, "now_us": now,
-            "tags": list(b.tags), "logpath": logpath, "specs": b.specs, "depth_tags": b.depth_tags}
+    if opts.get("boundary_now") and any(t.startswith("boundary:") and "near" not in t for t in b.tags):
+        # the clock placed 1 us before / at / 1 us after the root layout's own expiry instant
+        exp = b.layouts[""]["expires"]
+        try:
+            base = datetime.datetime.strptime(exp, "%Y-%m-%dT%H:%M:%SZ") - datetime.datetime(1970, 1, 1)
+            exp_us = (base.days * 86400 + base.seconds) * 1000000
+            d = rng.choice([-1, 0, 1])
+            if exp.startswith("0001") and d < 0:
+                d = 0
+            now = exp_us + d
+            b.tags.append("now=expiry%+d" % d)
+        except ValueError:
+            pass
+    scen = {"root": {"json": root, "spec": b.last_layout_spec}, "dir": tree, "keys": vkeys, "params": params, "now_us": now,
+            "tags": b.tags, "logpath": abs_logpath, "layouts": b.layouts, "specs": b.specs, "depth_tags": b.depth_tags}
+    if opts.get("ph"):
+        seq, kinds = ph_params_seq(rng, b.ph_used, opts.get("seq", True))
+        scen["params_seq"] = seq
+        scen["params"] = seq[0]
+        scen["ph_used"] = b.ph_used
+        scen["scrub"] = rng.random() < 0.5
+        b.tags.extend("params:" + k for k in kinds)
+    scen["tags"] = list(b.tags)
+    return scen
+
+
+NEUTRAL_VALUES = ["x", "", "é", "a b", "{P2}", "{{}}", "}", "{", "{P1}", "{{P1}}", "{0}", "{}", "*", "[ab]*", "?", "src/*"]
+
+
+def ph_params(rng, used):
+    """one parameter set for a layout that uses the placeholders [used] (name -> value that makes it verify)"""
+    good = dict(used) or {"P1": "*"}
+    kind = rng.choice(["complete"] * 5 + ["missing", "missing", "extra", "empty", "braces", "braces", "globs", "globs",
+                                          "invalid", "wrongbound", "none", "empty_dict"])
+    if kind == "complete":
+        p = good
+    elif kind == "missing":
+        p = dict(good)
+        del p[rng.choice(sorted(p))]
+    elif kind == "extra":
+        p = dict(good, P9="x", unused_="", **{"P-9": "{P1}"})
+    elif kind == "empty":
+        p = {k: ("" if rng.random() < 0.5 else v) for k, v in good.items()}
+    elif kind == "braces":
+        p = {k: (rng.choice(["{P2}", "{{}}", "}", "{", "{P1}", "{{P1}}", "{0}", "{}", "{{", "}}"]) if rng.random() < 0.6 else v)
+             for k, v in good.items()}
+    elif kind == "globs":
+        p = dict(good)
+        for k in p:
+            if k == "P1":
+                p[k] = rng.choice(["*", "[ab]*", "?", "src/*", "*.py", "[!a]*", "**"])
+            elif k == "P-1":
+                p[k] = rng.choice(["*", "a", "zzz", "[ab]*", "?*"])
+            elif k == "P2":
+                p[k] = rng.choice(NEUTRAL_VALUES)
+    elif kind == "wrongbound":
+        p = dict(good)
+        bound = [k for k in p if k[0] in "SAD"]
+        if bound:
+            k = rng.choice(bound)
+            p[k] = {"S": "nosuchstep", "A": "no/such/file", "D": "src"}[k[0]]
+    elif kind == "invalid":
+        p = rng.choice([dict(good, **{"P 1": "x"}), {"": "x"}, dict(good, P1=1), dict(good, P2=None), dict(good, P2=["x"]),
+                        ["P1"], "P1=x", 7, [], dict(good, **{"P.1": "x"}), dict(good, **{"Pé": "x"}), dict(good, **{"P1\n": "x"}),
+                        True, dict(good, P1=True)])
+    elif kind == "empty_dict":
+        p = {}
+    else:
+        p = None
+    return p, kind
+
+
+def ph_params_seq(rng, used, seq=True):
+    """parameters of 1-3 consecutive verifications of one loaded object"""
+    p, k = ph_params(rng, used)
+    r = rng.random() if seq else 0.0
+    if r < 0.3:
+        return [p], [k]
+    q, kq = ph_params(rng, used)
+    if r < 0.5:
+        return [p, copy.deepcopy(p)], [k, "same"]
+    if r < 0.7:
+        return [p, q], [k, kq]
+    if r < 0.8:
+        return rng.choice([([p, None], [k, "none"]), ([None, p], ["none", k])])
+    r3, k3 = ph_params(rng, used)
+    return rng.choice([([p, copy.deepcopy(p), copy.deepcopy(p)], [k, "same", "same"]),
+                       ([p, q, copy.deepcopy(p)], [k, kq, "again"]), ([p, q, r3], [k, kq, k3])])
 
 
 # ------------------------------------------------------------------------------------------------
@@ -893,12 +1169,32 @@ class FixedClock(datetime.datetime):
 
     @classmethod
     def now(cls, tz=None):
-        return datetime.datetime.fromtimestamp(cls.NOW_US // 1000000, tz) + datetime.timedelta(microseconds=cls.NOW_US % 1000000)
+        # (the patch of in_toto.verifylib.datetime.datetime is process-wide: dateutil's parser asks for now() without
+        # a zone to fill in missing fields; it gets naive UTC, so that clocks in year 1 / 9999 do not overflow)
+        t = datetime.datetime(1970, 1, 1, tzinfo=datetime.timezone.utc) + datetime.timedelta(microseconds=cls.NOW_US)
+        return t.replace(tzinfo=None) if tz is None else t.astimezone(tz)
 
 
-def run_impl(scen, workdir, times=1, params_seq=None):
-    """materialise and run the real in_toto_verify (in-process, clock and process execution intercepted).
-    Returns (list of outcomes, exec table)."""
+def _snapshot(md):
+    """what the caller can see of a loaded metadata object (JSON value)"""
+    import attr
+    from in_toto.models.metadata import Metablock
+    if isinstance(md, Metablock):
+        return {"signed": json.loads(json.dumps(attr.asdict(md.signed))),
+                "signatures": json.loads(json.dumps([s if isinstance(s, dict) else s.to_dict() for s in md.signatures]))}
+    return {"payload": base64.b64encode(md.payload).decode(), "payload_type": md.payload_type,
+            "signatures": json.loads(json.dumps([s.to_dict() for s in md.signatures.values()] if isinstance(md.signatures, dict)
+                                                else [s.to_dict() for s in md.signatures]))}
+
+
+def run_impl(scen, workdir, times=1, params_seq=None, scrub=False):
+    """materialise and run the real in_toto_verify (in-process, clock and process execution intercepted):
+    [times] (or len(params_seq)) consecutive verifications of ONE loaded metadata object.
+    Returns (list of outcomes, exec table accumulated over all runs).  Outcome k carries: ok | err/exc | load_err,
+    "log" (tokens the inspection commands appended during run k), "exec" (process table of run k),
+    "after" (attr.asdict(md.signed) after run k; None for an Envelope), "changed" (the caller's object differs
+    from what it was before run k: payload or signatures).  [scrub]: inspection links a run persisted in the
+    working directory are removed before the next run."""
     import in_toto.runlib
     import in_toto.verifylib as vl
     from in_toto.models.metadata import Metadata
@@ -920,7 +1216,12 @@ def run_impl(scen, workdir, times=1, params_seq=None):
         else:
             fp.write("{not json")
     exec_table = []
+    run_table = []
     real_run = in_toto.runlib.in_toto_run
+
+    def record(row):
+        exec_table.append(row)
+        run_table.append(row)
 
     def fake_run(name, material_list, product_list, link_cmd_args, **kw):
         if link_cmd_args and any(isinstance(a, str) and "TIMEOUT" in a for a in link_cmd_args):
@@ -928,15 +1229,15 @@ def run_impl(scen, workdir, times=1, params_seq=None):
             try:
                 real_run(name, material_list, product_list, real_cmd, **kw)
             finally:
-                exec_table.append([link_cmd_args, "timeout"])
+                record([link_cmd_args, "timeout"])
             raise subprocess.TimeoutExpired(link_cmd_args, kw.get("timeout"))
         try:
             link = real_run(name, material_list, product_list, link_cmd_args, **kw)
         except Exception:
-            exec_table.append([link_cmd_args, "crash"])
+            record([link_cmd_args, "crash"])
             raise
-        exec_table.append([link_cmd_args, {"retval": link.signed.byproducts.get("return-value"),
-                                           "materials": link.signed.materials, "products": link.signed.products}])
+        record([link_cmd_args, {"retval": link.signed.byproducts.get("return-value"),
+                                "materials": link.signed.materials, "products": link.signed.products}])
         return link
 
     outcomes = []
@@ -951,8 +1252,17 @@ def run_impl(scen, workdir, times=1, params_seq=None):
             md = Metadata.load(rootpath)
         except Exception as e:  # noqa
             return [{"load_err": True}], exec_table
+        if params_seq is not None:
+            times = len(params_seq)
+        seen = 0
         for t in range(times):
             params = scen["params"] if params_seq is None else params_seq[t]
+            del run_table[:]
+            before = _snapshot(md)
+            if scrub and t:
+                for fn in os.listdir(cwd):
+                    if fn.endswith(".link"):
+                        os.remove(os.path.join(cwd, fn))
             try:
                 summary = vl.in_toto_verify(md, copy.deepcopy(scen["keys"]), link_dir_path=linkdir,
                                             substitution_parameters=copy.deepcopy(params), inspect_timeout=5)
@@ -964,7 +1274,12 @@ def run_impl(scen, workdir, times=1, params_seq=None):
                 log = open(scen["logpath"]).read().split()
             except OSError:
                 log = []
-            out["log"] = log
+            out["log"] = log[seen:]
+            seen = len(log)
+            out["exec"] = list(run_table)
+            after = _snapshot(md)
+            out["after"] = after.get("signed")
+            out["changed"] = after != before
             outcomes.append(out)
     finally:
         os.chdir(old_cwd)
@@ -1005,11 +1320,19 @@ def collect_oracles(scen):
     return b64, loads
 
 
-def model_request(scen, env, exec_table, now_s):
+def model_request(scen, env, exec_table, now_s, outs=None):
+    """the model's "verify" request; a scenario with "params_seq" asks for consecutive verifications of one
+    loaded object, run k with the process table the implementation's run k produced ([outs])"""
     b64, loads = collect_oracles(scen)
-    return {"root": scen["root"], "dir": scen["dir"], "keys": scen["keys"], "params": scen["params"],
-            "now_us": scen["now_us"], "now_s": now_s, "b64": b64, "loads": loads,
-            "sigs": env.rows, "msgs": [m.decode("latin-1") for m in env.msgs], "exec": exec_table}
+    req = {"root": scen["root"], "dir": scen["dir"], "keys": scen["keys"], "params": scen["params"],
+           "now_us": scen["now_us"], "now_s": now_s, "b64": b64, "loads": loads,
+           "sigs": env.rows, "msgs": [m.decode("latin-1") if isinstance(m, bytes) else m for m in env.msgs], "exec": exec_table}
+    if scen.get("params_seq") is not None:
+        req["params_seq"] = scen["params_seq"]
+        req["exec_seq"] = [o.get("exec", []) for o in (outs or [])]
+        if scen.get("scrub"):
+            req["scrub"] = True
+    return req
 
 
 def norm_model_outcome(ans):
@@ -1045,9 +1368,50 @@ def compare(impl_out, model_out):
         import re
         m = re.search(r"echo (\S+) >>", txt)
         ids.append(m.group(1) if m else txt)
+        if "printf '=%s" in txt and len(cmd) >= 5 and isinstance(cmd[4], str):
+            ids.extend(("=" + cmd[4]).split())      # the command also logs its last argument verbatim
     if ids != impl_out.get("log", []):
         return "inspection log: impl %r, model %r" % (impl_out.get("log"), ids)
     return None
+
+
+def compare_all(outs, ans):
+    """all runs of one scenario (implementation) against the raw model answer (single outcome or {"seq": [...]}):
+    None, "unmodelled", or a description of the first difference"""
+    if not isinstance(ans, dict):
+        return "driver: %r" % (ans,)
+    if "seq" not in ans:
+        return compare(outs[0], norm_model_outcome(ans))
+    if "load_err" in outs[0]:
+        return "load: impl refuses to load, model loads"
+    if len(ans["seq"]) != len(outs):
+        return "sequence length: impl %d, model %d" % (len(outs), len(ans["seq"]))
+    for k, (o, a) in enumerate(zip(outs, ans["seq"])):
+        d = compare(o, norm_model_outcome(a))
+        if d == "unmodelled":
+            return d
+        if d:
+            return "run %d: %s" % (k, d)
+        if o.get("after") != a.get("after"):
+            return "run %d: the caller's object after the call: impl %s, model %s" % (
+                k, "changed" if o.get("changed") else "unchanged", _first_diff(o.get("after"), a.get("after")))
+    return None
+
+
+def _first_diff(a, b, path=""):
+    if type(a) != type(b):
+        return "%s: %r vs %r" % (path, a, b)
+    if isinstance(a, dict):
+        for k in sorted(set(a) | set(b)):
+            if a.get(k) != b.get(k):
+                return _first_diff(a.get(k), b.get(k), path + "/" + str(k))
+    if isinstance(a, list):
+        if len(a) != len(b):
+            return "%s: length %d vs %d" % (path, len(a), len(b))
+        for i, (x, y) in enumerate(zip(a, b)):
+            if x != y:
+                return _first_diff(x, y, path + "/%d" % i)
+    return "%s: %r vs %r" % (path, a, b)
 
 
 # ------------------------------------------------------------------------------------------------
